@@ -863,7 +863,15 @@ func (f *Frame) execInstr(ins ssa.Instruction, reach string, h *Heap) string {
 	case *ssa.Next:
 		f.env[i] = f.rangeNext(i, reach, h)
 	case *ssa.RunDefers:
-	case *ssa.MakeClosure, *ssa.Defer, *ssa.Go, *ssa.Send, *ssa.Select:
+	case *ssa.Defer:
+		// a deferred call of a dependency that has no contract is, like a direct one, assumed to
+		// write no modelled memory; its result is unused. Anything else is outside the subset.
+		if cal := i.Call.StaticCallee(); cal != nil && !f.en.inRepo(cal) && f.en.cs.Funcs[funcKey(cal)] == nil && len(i.Call.Args) == 0 {
+			f.vc.assumed = append(f.vc.assumed, "deferred external call without contract, no memory effect assumed: "+funcKey(cal))
+		} else {
+			vc.errorf("%s: instruction %T outside the supported subset", f.fn.Name(), ins)
+		}
+	case *ssa.MakeClosure, *ssa.Go, *ssa.Send, *ssa.Select:
 		vc.errorf("%s: instruction %T outside the supported subset", f.fn.Name(), ins)
 		if v, ok := ins.(ssa.Value); ok {
 			f.env[v] = f.freshVal("unsupported", v.Type(), h)
